@@ -609,6 +609,71 @@ Proof.
   match goal with Ht : trel _ _ _ _ _ |- _ => unfold trel in Ht; cbn in Ht; subst end.
   f_equal. apply IH. assumption.
 Qed.
+(* ---- from act traces to resumptions ---------------------------------------------------------------
+   The discipline on resumptions follows from what is checked on their act traces ([ok] and the shape
+   check, which is what harness/lockfacts extracts and MonitorFacts.v computes), for resumptions that
+   start no goroutine. *)
+Variable v0 : V.   (* values exist *)
+Notation ptrace := (ptrace V R).
+Notation nospawn := (nospawn V R).
+
+Lemma ptrace_exists p : nospawn p -> exists t, ptrace p t.
+Proof.
+  induction p as [r|m md k IH|m md k IH|f k IH|f v k IH|c _ k _|c _ k _]; cbn; intro Hn; try tauto.
+  - eexists. constructor.
+  - destruct (IH Hn) as [t Ht]. eexists. constructor. exact Ht.
+  - destruct (IH Hn) as [t Ht]. eexists. constructor. exact Ht.
+  - destruct (IH v0 (Hn v0)) as [t Ht]. eexists. econstructor. exact Ht.
+  - destruct (IH Hn) as [t Ht]. eexists. constructor. exact Ht.
+Qed.
+
+Lemma single_held h md : length h = 1 -> hget h 0 = Some md -> h = [(0, md)].
+Proof.
+  destruct h as [|[x y] [|]]; cbn; try discriminate. intros _.
+  destruct (Nat.eqb_spec x 0) as [->|]; [|discriminate]. congruence.
+Qed.
+
+Lemma pok_of_traces listed tbl p : forall ho h,
+  nospawn p ->
+  (forall t, ptrace p t ->
+     ok guard exempt listed tbl h t = true /\ shape_code tbl h t = true) ->
+  pok ho h p.
+Proof.
+  induction p as [r|m md k IH|m md k IH|f k IH|f v k IH|c _ k _|c _ k _]; intros ho h Hn H; cbn [Monitor.pok]; cbn in Hn; try tauto.
+  - destruct (H [] (pt_ret V R r)) as [Ho _]. apply ok_nil in Ho. exact Ho.
+  - destruct (ptrace_exists k Hn) as [t0 Ht0].
+    destruct (H _ (pt_acq V R m md k t0 Ht0)) as [Ho Hs]. rewrite ok_cons in Ho. cbn [Monitor.step_ok] in Ho; cbn [Monitor.shape_code Monitor.shape_act Monitor.hnext] in Hs.
+    destruct (forallb (fun e => fst e <? m) h) eqn:Ef; [|discriminate].
+    apply andb_prop in Hs as [Hs _]. split.
+    + destruct (Nat.eqb_spec m 0) as [->|Hne].
+      * destruct h as [|[x y] h']; [reflexivity|]. cbn in Ef. destruct (x <? 0) eqn:E; [|discriminate].
+        apply Nat.ltb_lt in E. lia.
+      * cbn in Hs. split; [exact Hs|apply hget_lt_none; exact Ef].
+    + apply IH; [exact Hn|]. intros t Ht. destruct (H _ (pt_acq V R m md k t Ht)) as [Ho' Hs'].
+      rewrite ok_cons in Ho'. cbn [Monitor.step_ok] in Ho'; cbn [Monitor.shape_code Monitor.shape_act Monitor.hnext] in Hs'. rewrite Ef in Ho'. apply andb_prop in Hs' as [_ Hs'']. auto.
+  - destruct (ptrace_exists k Hn) as [t0 Ht0].
+    destruct (H _ (pt_rel V R m md k t0 Ht0)) as [Ho Hs]. rewrite ok_cons in Ho. cbn [Monitor.step_ok] in Ho; cbn [Monitor.shape_code Monitor.shape_act Monitor.hnext] in Hs.
+    destruct (hget h m) as [md'|] eqn:Eg; [|discriminate].
+    destruct (mode_eqb md md') eqn:Em; [|discriminate]. apply mode_eqb_eq in Em. subst md'.
+    apply andb_prop in Hs as [Hs _]. split; [reflexivity|]. split.
+    + intros ->. cbn in Hs. apply Nat.eqb_eq in Hs. apply single_held; assumption.
+    + apply IH; [exact Hn|]. intros t Ht. destruct (H _ (pt_rel V R m md k t Ht)) as [Ho' Hs'].
+      rewrite ok_cons in Ho'. cbn [Monitor.step_ok] in Ho'; cbn [Monitor.shape_code Monitor.shape_act Monitor.hnext] in Hs'. rewrite Eg in Ho'.
+      replace (mode_eqb md md) with true in Ho' by (destruct md; reflexivity).
+      apply andb_prop in Hs' as [_ Hs'']. auto.
+  - split.
+    + destruct (ptrace_exists (k v0) (Hn v0)) as [t0 Ht0].
+      destruct (H _ (pt_rd V R f k v0 t0 Ht0)) as [Ho _]. rewrite ok_cons in Ho. cbn [Monitor.step_ok] in Ho.
+      destruct (exempt f); [auto|]. right. cbn in Ho. destruct (holdsAny h (guard f)); [reflexivity|discriminate].
+    + intro v. apply IH; [apply Hn|]. intros t Ht. destruct (H _ (pt_rd V R f k v t Ht)) as [Ho' Hs'].
+      rewrite ok_cons in Ho'. cbn [Monitor.step_ok] in Ho'; cbn [Monitor.shape_code Monitor.shape_act Monitor.hnext] in Hs'. destruct (exempt f || holdsAny h (guard f)); [auto|discriminate].
+  - destruct (ptrace_exists k Hn) as [t0 Ht0].
+    destruct (H _ (pt_wr V R f v k t0 Ht0)) as [Ho _]. rewrite ok_cons in Ho. cbn [Monitor.step_ok] in Ho.
+    destruct (exempt f) eqn:Ef; cbn in Ho; [discriminate|].
+    destruct (holdsW h (guard f)) eqn:Ew; [|discriminate]. repeat split; auto.
+    apply IH; [exact Hn|]. intros t Ht. destruct (H _ (pt_wr V R f v k t Ht)) as [Ho' Hs'].
+    rewrite ok_cons in Ho'. cbn [Monitor.step_ok] in Ho'; cbn [Monitor.shape_code Monitor.shape_act Monitor.hnext] in Hs'. rewrite Ef, Ew in Ho'. cbn in Ho'. auto.
+Qed.
 End Reduce.
 
 (* ---- non-vacuity ------------------------------------------------------------------------------
